@@ -3,8 +3,9 @@ use crate::core::*;
 use serde_json::Value;
 
 pub fn main(ctx: &Ctx) -> i32 {
-    ctx.set_rule("hook-free: listen() with (initial,max) in a 10-entry matrix, max..max+2 clients blocked inside a gated method, burst and one-by-one arrival, unix+TCP; distinct = (initial, max, clients, burst, transport); non-trivial = always (>=1 connection blocked in service)");
+    ctx.set_rule("uncontrolled: random histories of submit/finish on the real pool under OS scheduling, job ends raced against submissions with 0-100 us gaps, in-service count compared with min(outstanding, max) at quiet points (4 lanes, 5 s quick / 180 s thorough); hook-free: listen() with (initial,max) in a 10-entry matrix, max..max+2 clients blocked inside a gated method, burst and one-by-one arrival, unix+TCP; distinct = (initial, max, clients, burst, transport); non-trivial = always (>=1 connection blocked in service)");
     crate::c14pool::run_controlled(ctx);
+    crate::c14stress::run(ctx);
     crate::c14sock::run(ctx);
     ctx.finish(ctx.tier.pick(20, 400))
 }
@@ -12,6 +13,10 @@ pub fn main(ctx: &Ctx) -> i32 {
 pub fn replay(ctx: &Ctx, w: &Value) {
     if w.get("engine").and_then(|v| v.as_str()) == Some("c14-pool") {
         return crate::c14pool::replay(ctx, w);
+    }
+    if w.get("engine").and_then(|v| v.as_str()) == Some("c14-stress") {
+        // a race is replayed by racing again: the same lanes and seed, same time budget
+        return crate::c14stress::run(ctx);
     }
     let g = |k: &str| w.get(k).and_then(|v| v.as_u64()).unwrap_or(1) as usize;
     let tr = if w.get("transport").and_then(|v| v.as_str()) == Some("Tcp") { crate::sock::Transport::Tcp } else { crate::sock::Transport::UnixPath };
